@@ -183,18 +183,24 @@ func (monitorPlugin) OnSessionClose(ssn *framework.Session) {
 
 var initOnce sync.Once
 
+// freshActions registers new action objects, as a newly started scheduler process does: action objects live as
+// long as the process and are reused for every cycle, so state they keep must not leak from one simulated run
+// (one scheduler incarnation) into the next.
+func freshActions() {
+	actions.InitDefaultActions()
+	for _, n := range []string{"allocate", "consolidation", "reclaim", "preempt", "stalegangeviction"} {
+		a, ok := framework.GetAction(n)
+		if !ok {
+			panic("action not registered: " + n)
+		}
+		framework.RegisterAction(actionWrapper{inner: a})
+	}
+}
+
 func initSchedulerGlobals() {
 	initOnce.Do(func() {
 		must(schedlog.InitLoggers(envIntRun("KAISIM_LOG_V", -1)))
-		actions.InitDefaultActions()
 		plugins.InitDefaultPlugins()
-		for _, n := range []string{"allocate", "consolidation", "reclaim", "preempt", "stalegangeviction"} {
-			a, ok := framework.GetAction(n)
-			if !ok {
-				panic("action not registered: " + n)
-			}
-			framework.RegisterAction(actionWrapper{inner: a})
-		}
 		framework.RegisterAction(stmtFuzzAction{})
 		framework.RegisterPluginBuilder("verif-monitor", func(framework.PluginArguments) framework.Plugin { return monitorPlugin{} })
 	})
@@ -321,6 +327,7 @@ type SchedActor struct {
 
 func NewSchedActor(api *SimAPI, cfg SchedConfig, hooks SessionHooks) *SchedActor {
 	initSchedulerGlobals()
+	freshActions()
 	sc, params := cfg.build()
 	cl := api.ClientsFor("scheduler")
 	real := schedcache.New(&schedcache.SchedulerCacheParams{
